@@ -422,7 +422,8 @@ func (g *gen) sPcall(fc *fctx, x bool) []Stmt {
 	return out
 }
 
-var errMsgs = []string{"E1", "E2", "E3", "E4"}
+// messages with a per-cent sign: an error message is data, never a format
+var errMsgs = []string{"E1", "E2", "E3", "E4", "P100%", "P%d%s"}
 
 func (g *gen) sError(fc *fctx) []Stmt {
 	g.use("error")
